@@ -10,6 +10,11 @@ re-run.  Every produced
 snapshot is inflated and opened with sqlite3 by the harness, and the real
 `download_batch` is asked for every record that left the live tree.
 
+Further slices: per-instance {scheduled} x {has a /finished node} for the
+cleanup_trace and cleanup_finished sweeps; two cycles in one process with an
+instance scheduled in between; a size menu for the upload -> download round
+trip (snapshots from 45 KB to > 16 MiB uncompressed, thorough).
+
 Oracle (only what the statement says):
   * conservation - at every cut, after every failed write, after every
     re-run, at the end and after a
@@ -32,7 +37,7 @@ import collections
 from mc import boundx
 from mc import c18_world as w
 
-BUDGET = {'quick': 240, 'thorough': 600}
+BUDGET = {'quick': 240, 'thorough': 840}
 HASH_INSENSITIVE = True
 
 RULE = ('one case = one population x batch size x pre-existing snapshots '
@@ -72,6 +77,12 @@ ASSUMPTIONS = [
     'finished records are compared with their data',
     'sqlite scratch files live in a run-private directory (tempfile.tempdir); '
     'download_batch is memoised on (snapshot bytes, table, object name)',
+    'size slice: event names are synthetic (padded data field); the '
+    'ZooKeeper 1 MB node limit is not modelled (the padded names compress '
+    'well); sizes stated are of the uncompressed sqlite file produced by the '
+    'real upload_batch; retrieval = the real download_batch, which is what '
+    'AppTraceLoop/ServerTraceLoop use to read history; an exception from '
+    'download_batch is reported as snapshot-download-failed',
     'bounds: 2 shards, 2-3 instances, <= 3 events each, ages {well old, just '
     'older, exactly at, just younger}, batch {1,2,3}, 0-2 pre-existing '
     'snapshots, max_count {1,2,3}; menus in coverage.menus',
@@ -172,8 +183,10 @@ def run(ctx):
 def _run(ctx):
     tier = ctx.tier
     cases = _cases(tier)
-    chunks = [(tier, lo, min(len(cases), lo + CHUNK))
-              for lo in range(0, len(cases), CHUNK)]
+    nz = sum(1 for cs in cases if cs['family'] == 'Z')   # sorted first
+    chunks = [(tier, i, i + 1) for i in range(nz)] + \
+        [(tier, lo, min(len(cases), lo + CHUNK))
+         for lo in range(nz, len(cases), CHUNK)]
     res = boundx.sweep(chunks, _worker, workers=ctx.workers,
                        time_cap=ctx.budget_s * 0.85)
     c = res.counters
@@ -186,7 +199,9 @@ def _run(ctx):
             not c.get('prunes_with_excess') or \
             not c.get('error_points') or \
             not c.get('error_runs_aborted') or \
-            not c.get('second_cycle_checks'):
+            not c.get('second_cycle_checks') or \
+            not c.get('size_cases_above_4MiB') or \
+            (tier != 'quick' and not c.get('size_cases_above_16MiB')):
         raise w.HarnessError('vacuous run: %r' % dict(c))
     violations = []
     w.install_clock()
@@ -227,8 +242,20 @@ def _run(ctx):
                  'then cleanup_trace_history max_count {1,2} when batch=1'
                  % (list(w.INSTANCES), 2 if tier == 'quick' else 3,
                     list(w.AGES)),
+            'T+finished': 'two instances, each independently scheduled '
+                          '{F,T} x has a /finished node {F,T} (at least one '
+                          'has) x multiset of <= %d events; batch {1,2,3}; '
+                          'snapshots {0,1}; oracle unchanged (events of '
+                          'scheduled instances stay live whatever /finished '
+                          'says)' % (1 if tier == 'quick' else 2),
             'F': 'three instances x finished record {none,W,O,E,Y}; batch '
-                 '{1,2,3}; snapshots {0,1,2}; child order menu',
+                 '{1,2,3}; snapshots {0,1,2}; child order menu; plus every '
+                 'instance independently scheduled {F,T} (at least one; '
+                 'insertion order, no snapshots)',
+            'Z': 'upload -> download round trip of one batch, (events, name '
+                 'length, stated lower bound MiB): %s; measured uncompressed '
+                 'sizes in counters.size_uncompressed_bytes_*; no cuts'
+                 % (w.SIZE_MENU['quick' if tier == 'quick' else 'thorough'],),
             'S': 'servers %s x multiset of <= %d events over 3 timestamps; '
                  'batch {1,2,3}; snapshots {0,1,2}'
                  % (list(w.SERVERS), 2 if tier == 'quick' else 3),
